@@ -308,6 +308,14 @@ func c06exec(m *rm.Tree, ref *c06ref, cs c06case, info *c06info) (key, what stri
 			err = t.UpdateTipIndex()
 		case 2:
 			err = t.ReinitIndexes()
+		case 3:
+			// every index built while the tips still had their old names, then each tip renamed through Node.SetName
+			// (which refreshes no index): the tree IS a tree on the new names, the index a stale cache
+			if err = t.ReinitIndexes(); err == nil {
+				for _, tp := range t.Tips() {
+					tp.SetName(strings.TrimPrefix(tp.Name(), "old_"))
+				}
+			}
 		}
 		if err != nil {
 			fail("harness/index", err.Error())
@@ -551,6 +559,13 @@ func c06lists(tipsInOrder []string, keep map[string]bool, revert bool, variants 
 func c06tree(c *Ctx, m *rm.Tree, idxModes []int, variants int, alsoBuild bool) {
 	txt := m.Newick()
 	c.Sample(txt)
+	oldTxt := func() string {
+		r := m.Clone()
+		for _, tp := range r.Tips() {
+			tp.Name = "old_" + tp.Name
+		}
+		return r.Newick()
+	}()
 	var order []string
 	for _, tp := range m.Tips() {
 		order = append(order, tp.Name)
@@ -582,6 +597,13 @@ func c06tree(c *Ctx, m *rm.Tree, idxModes []int, variants int, alsoBuild bool) {
 							continue
 						}
 						cs := c06case{Tree: txt, Names: l, Revert: revert, Index: im, Build: b == 1}
+						if im == 3 {
+							if b == 1 {
+								continue
+							}
+							cs.Tree = oldTxt
+							c.Count("prune_after_setname_with_stale_index", 1)
+						}
 						var info c06info
 						held := c.Check(cs, func() (string, string) {
 							k, w := c06exec(m, ref, cs, &info)
@@ -719,7 +741,7 @@ func init() {
 			"the look-up clause is only demanded when the name index had been built before pruning (DESIGN section 4)",
 		},
 		Require: []string{"remove_executions", "keep_executions", "tipset_checked", "dist_pairs_checked", "restricted_splits_checked", "unmerged_supports_checked",
-			"absent_name_in_list", "lookups_after_indexed_prune", "lookups_of_removed_tips", "never_indexed_prune",
+			"absent_name_in_list", "prune_after_setname_with_stale_index", "lookups_after_indexed_prune", "lookups_of_removed_tips", "never_indexed_prune",
 			"tip_attached_to_root_removed", "whole_clade_removed", "both_children_of_cherry_removed", "rooted_root_loses_child", "unrooted_root_left_with_two_children",
 			"single_child_node_to_suppress", "merge_absent_with_present_length", "multifurcating_tree", "polytomy_shrinks", "inner_split_becomes_trivial", "large_instances", "cli_prune_args", "cli_prune_args-revert", "cli_prune_tipfile", "cli_prune_tipfile-commas-revert", "cli_prune_comp", "cli_prune_comp-revert"},
 		Run: func(c *Ctx) {
@@ -751,7 +773,11 @@ func init() {
 							}
 						}
 						m := mk()
-						c06tree(c, m, pl.idxModes, pl.variants, ndev == 0)
+						modes := pl.idxModes
+						if ndev == 0 {
+							modes = append(append([]int{}, modes...), 3)
+						}
+						c06tree(c, m, modes, pl.variants, ndev == 0)
 						if ndev == 0 {
 							c06tree(c, c06relabel(m), pl.idxModes, 1, false)
 						}
@@ -774,6 +800,11 @@ func init() {
 			if err != nil {
 				fmt.Println("cannot re-read model:", err)
 				return
+			}
+			if cs.Index == 3 {
+				for _, tp := range m.Tips() {
+					tp.Name = strings.TrimPrefix(tp.Name, "old_")
+				}
 			}
 			ref := c06expect(m, c06keepSet(m, cs.Names, cs.Revert))
 			var info c06info
